@@ -1,8 +1,9 @@
 from pyvc.runner import Property
 import contracts.all  # noqa
 import contracts.mailbox as M
+import contracts.processor as PR
 
-PROVED = [M.can_fetch, M.SEND_E, M.CLOSE_E, M.READ_E, M.READ_L, M.SEND_FROM_L, M.SEND_FROM_E, M.SUBSCRIBE_E, M.KILL_E]
+PROVED = [M.can_fetch, M.SEND_E, M.CLOSE_E, M.READ_E, M.READ_L, M.SEND_FROM_L, M.SEND_FROM_E, M.SUBSCRIBE_E, M.KILL_E, PR.tmp_init]
 
 PROPERTY = Property(
     "C13", "proof",
@@ -13,10 +14,15 @@ PROPERTY = Property(
     assumptions=["protocol assumptions of C05 (single implicit sender, subscribers register first, lazy => implicit numbering)",
                  "NOT decided: that the pipeline comes to rest after a number of further source chunks bounded independently of "
                  "the run length (a quantitative, whole-pipeline, schedule-dependent statement - outside this family)",
+                 "processor wiring: components, plugins, loaders, savers and the MailboxDict are opaque values; add_sender / "
+                 "partial / executors are abstracted; set algebra on opaque sets is uninterpreted; distinct data types have distinct mailboxes",
                  "divide_outputs is covered structurally only (its mailboxes form a dict of unknown size)"],
     explanation="eager mode: 'len(buffer) <= max_messages' is part of the monitor invariant re-established by every locked section of "
                 "send / close / _read / kill / subscribe, for every interleaving; lazy mode: _can_fetch equals its specification "
                 "(killed, or nobody waits for a buffered message and a driving reader waits), the sender thread advances the source "
                 "only after the gate answered True, readers publish their demand before sleeping and every change that can enable "
-                "the gate notifies the fetch condition",
+                "the gate notifies the fetch condition; wiring by ThreadedMailboxProcessor.__init__: the mailboxes are lazy exactly "
+                "when there is no worker pool and lazy mode is allowed, divide_outputs gets the same flag, a saver of computed data "
+                "drives only in eager mode, and every mailbox's capacity is the plugin's own max_messages if declared, else the "
+                "processor-wide value",
 )
